@@ -1,6 +1,8 @@
 package extcfs
 
 import (
+	"io"
+
 	"github.com/goatcms/goatcore/filesystem"
 	"github.com/goatcms/goatcore/filesystem/filespace/encryptfs/cipherfs"
 	"github.com/goatcms/goatcore/varutil/goaterr"
@@ -41,13 +43,16 @@ func (c Cipher) DecryptReader(key []byte, stream filesystem.Reader) (reader file
 		p          = make([]byte, 4)
 		fileCipher cipherfs.Cipher
 	)
-	if _, err = stream.Read(p); err != nil {
-		return nil, err
+	if _, err = io.ReadFull(stream, p); err != nil {
+		stream.Close()
+		return nil, goaterr.Errorf("can not read cipher key: %v", err)
 	}
 	ckey = NewCipherKey(p)
 	if fileCipher = c.mapping[ckey]; fileCipher == nil {
+		stream.Close()
 		return nil, goaterr.Errorf("Unknow cipher for %v key", ckey)
 	}
+	// the selected cipher takes over the stream and closes it (on error too)
 	return fileCipher.DecryptReader(key, stream)
 }
 
